@@ -30,6 +30,7 @@ var c08Pool = []struct{ file, test string }{
 	{"alpha_test.go", "TestAlpha"}, {"alpha_test.go", "TestAlphaBeta"}, {"alpha_test.go", "TestAl"},
 	{"beta_test.go", "TestBeta"}, {"beta_test.go", "TestB"}, {"beta_test.go", "Test_x"},
 	{"gamma_test.go", "TestGamma"}, {"gamma_test.go", "TestGamma2"},
+	{"api.snapshot_test.go", "TestSnapApi"},
 }
 
 func fileOfTest(top string) string {
@@ -43,7 +44,7 @@ func fileOfTest(top string) string {
 
 // function declarations of the generated test files (see lib/bbscn.py)
 func funcDecls(file string) []string {
-	suf := map[string]string{"alpha_test.go": "Alpha", "beta_test.go": "Beta", "gamma_test.go": "Gamma", "dotted.v2_test.go": "DottedV2"}[file]
+	suf := map[string]string{"alpha_test.go": "Alpha", "beta_test.go": "Beta", "gamma_test.go": "Gamma", "dotted.v2_test.go": "DottedV2", "api.snapshot_test.go": "ApiSnapshot"}[file]
 	out := []string{"run" + suf, "interp" + suf, "call" + suf, "helperSame" + suf, "direct" + suf}
 	for _, p := range c08Pool {
 		if p.file == file {
@@ -90,7 +91,7 @@ func genC08Steps(t *rapid.T, depth int, subPool []string) []Step {
 	return steps
 }
 
-var c08RunPool = []string{"", "", "", "TestAlpha", "Alpha", "Al", "TestB", "B", "Beta", "Gamma", "TestGamma2", "2", "TestAlpha|TestGamma", "^TestAlpha$", "^TestB$", "TestAlpha/sub1", "Alpha/s", "sub1", "Sub", "TestAl/", "Test_x", "x", "TestBeta/sub2/deep", "/sub1", "TestA.*a$"}
+var c08RunPool = []string{"", "", "", "TestSnapApi", "Snap", "TestAlpha", "Alpha", "Al", "TestB", "B", "Beta", "Gamma", "TestGamma2", "2", "TestAlpha|TestGamma", "^TestAlpha$", "^TestB$", "TestAlpha/sub1", "Alpha/s", "sub1", "Sub", "TestAl/", "Test_x", "x", "TestBeta/sub2/deep", "/sub1", "TestA.*a$"}
 
 func allNames(tests map[string][]Step) []string {
 	var out []string
@@ -131,7 +132,7 @@ func stepsOf(tests map[string][]Step, name string) []Step {
 
 func genC08(t *rapid.T) c08Case {
 	c := c08Case{Tests: map[string][]Step{}}
-	subPool := []string{"sub1", "sub2", "Sub", "deep", "s", "2", "Alpha", "sub1.1", "sub1-b"}
+	subPool := []string{"sub1", "sub2", "Sub", "deep", "s", "2", "Alpha", "sub1.1", "sub1-b", "/lead", "../rel"}
 	ntests := rapid.IntRange(2, 5).Draw(t, "ntests")
 	perm := rapid.Permutation(indices(len(c08Pool))).Draw(t, "tests")
 	for _, i := range perm[:ntests] {
